@@ -79,8 +79,13 @@ func run(rt *rapid.T) {
 	for k, v := range m.Model {
 		cpModel[k] = v
 	}
-	m.Logf("SaveRoot")
-	m.T.SaveRoot()
+	// Rollback() needs SaveRoot(); RollbackTrie(node) is also used by callers that keep the checkpoint as a node
+	// themselves and never call SaveRoot (the package's own TestRollbackTrie does)
+	entry := gen.Pick(rt, []string{"Rollback", "RollbackTrie", "RollbackTrie-without-SaveRoot"}, "entry")
+	if entry != "RollbackTrie-without-SaveRoot" {
+		m.Logf("SaveRoot")
+		m.T.SaveRoot()
+	}
 	cpNodes := keysOf(db)
 	// the batch of changes
 	var kinds []string
@@ -133,7 +138,6 @@ func run(rt *rapid.T) {
 		m.GC()
 	}
 	// rollback
-	entry := gen.Pick(rt, []string{"Rollback", "RollbackTrie"}, "entry")
 	m.Logf("%s", entry)
 	if entry == "Rollback" {
 		m.T.Rollback()
